@@ -2001,8 +2001,10 @@ class FatFile(io.RawIOBase):
                 to_append = list(islice(fs.fat.free(), clusters - len(self._map)))
                 fs.fat.mark_end(to_append[-1])
                 zeros = b'\0' * cs
-                for next_c, this_c in pairwise(reversed([self._map[-1]] + to_append)):
-                    fs.clusters[next_c] = zeros
+                for cluster in to_append:
+                    fs.clusters[cluster] = zeros
+                # NOTE: self._map is empty for a file that owns no cluster yet
+                for next_c, this_c in pairwise(reversed(self._map[-1:] + to_append)):
                     fs.fat[this_c] = next_c
                 self._map.extend(to_append)
             elif clusters < len(self._map):
